@@ -136,6 +136,9 @@ def get_vxc(
     if relativity != 0:
         raise NotImplementedError
 
+    if not ni.settings.nlof_settings.is_empty:
+        raise NotImplementedError("NLOF forces")
+
     xctype = ni.settings.sl_settings.level
     ni.initialize_feature_generators(mol, grids, 1)
 
